@@ -99,6 +99,14 @@ def main(argv):
             sid, r.get('property'), r.get('repo_tests_pass'), r.get('demo_fails_with_change'), r.get('caught'),
             ''.join('%s:%s ' % (k, 'Y' if v else 'N') for k, v in sorted(r.get('caught_by_seed', {}).items())),
             r.get('error', '') or (r.get('checks', {}).get(r.get('property'), {}).get('first', '')[:120])))
+        if os.path.exists(path):
+            # merge: another run may have written other entries meanwhile
+            try:
+                disk = json.load(open(path))
+            except Exception:
+                disk = {}
+            disk[sid] = r
+            results = disk
         json.dump(results, open(path, 'w'), indent=1, sort_keys=True)
     return 0
 
